@@ -124,6 +124,8 @@ def streams(ctx):
     ctx.run_cases(OPFRAMES, "targeted-lengths-and-names", _targeted(rng), exhaustive=False, sample_every=37)
     ctx.run_cases(LONGUSE, "one-api-object-reconnected-and-used-again", [gen_reconnecting(rng) for _ in range(ctx.n(150, 3000))], exhaustive=False,
                   sample_every=70)
+    ctx.run_cases(LONGUSE, "one-api-object-and-a-device-that-is-slow-to-answer-under-a-virtual-clock",
+                  [HH.with_slow_replies(rng, gen_reconnecting(rng)) for _ in range(ctx.n(80, 1500))], exhaustive=False, sample_every=40)
     per = ctx.n(220, 4500)
     for op in G.ALL_OPS:
         ctx.run_cases(OPFRAMES, f"random-{op}", [G.gen_case(rng, op) for _ in range(per if op != "ctlbreeze" else per * 2)],
